@@ -237,6 +237,40 @@ func GenC17IdleBurst(r *RNG) *SrvPlan {
 	return p
 }
 
+// GenC17ManyHandlers: more handlers in flight than any internal queue has slots (128), all of them still running when
+// the peer goes away (cleanly, with a reset, or by no longer reading), and returning only after the connection's own
+// goroutines have gone.
+func GenC17ManyHandlers(r *RNG) *SrvPlan {
+	p := &SrvPlan{Family: "c17-many-handlers"}
+	p.Srv = SrvCfg{MaxConcurrentStreams: 1024, PingInterval: -1, MaxRequestBodySize: 1 << 20}
+	p.Peer = PeerCfg{InitialWindow: 1 << 20, MaxFrameSize: -1, HeaderTableSize: -1, AutoWindow: true, ConnWindowBoost: 1 << 24, LinkCap: Pick(r, 0, 0, 4096)}
+	n := 130 + r.Intn(120)
+	for i := 0; i < n; i++ {
+		l := Lane{Name: fmt.Sprintf("req%d", i), OpensStream: true, After: i - 1,
+			Req:  &Req{Method: "GET", Scheme: "https", Path: fmt.Sprintf("/m/%d", i), Authority: "example.com", Fields: []HF{{"x-rid", fmt.Sprint(i)}}},
+			Resp: &Resp{Status: 200, Mode: "buffered", BodyLen: Pick(r, 0, 10, 3000), ErrAt: -1, Fields: []HF{{"x-rid", fmt.Sprint(i)}}}}
+		l.Ops = []Op{{Kind: "headers", Fields: []HF{{":method", "GET"}, {":scheme", "https"}, {":path", l.Req.Path}, {":authority", "example.com"}, {"x-rid", fmt.Sprint(i)}}, EndStream: true, Pad: -1, TableSize: -1}}
+		p.Lanes = append(p.Lanes, l)
+	}
+	p.GateMode = "hold"
+	switch r.Intn(4) {
+	case 0:
+		p.Faults = append(p.Faults, Fault{Kind: "close-peer", AfterOps: n - r.Intn(3)})
+	case 1:
+		p.Faults = append(p.Faults, Fault{Kind: "cut-rst", At: 0, AfterOps: n})
+	case 2:
+		p.Faults = append(p.Faults, Fault{Kind: "cut-eof", At: 0, AfterOps: n})
+	case 3: // the peer simply leaves at the end of the workload
+	}
+	p.Mask = []string{"atomic", "prelock", "net", "yield"}
+	p.PoolPol = r.Intn(3)
+	p.Strategy = genStrategy(r)
+	p.Strategy.Stay = Pick(r, 0.9, 0.97)
+	p.SelSeed = r.Uint64()
+	p.MaxSteps = 400000
+	return p
+}
+
 // mutatePlan applies 1-3 structure-aware mutations: duplicate / delete / reorder a frame, flip a flag,
 // retarget a frame to another stream id, insert a raw frame of arbitrary type.
 func mutatePlan(r *RNG, p *SrvPlan) {
